@@ -132,6 +132,8 @@ def can_split(
         or not inner_type.type.valid_content(
             pos_.parent.content.cut_by_index(pos_.index(), pos_.parent.child_count),
         )
+        # the part after the split is joined with the rest of the split node
+        or not inner_type.type.compatible_content(pos_.parent.type)
     ):
         return False
 
@@ -155,10 +157,14 @@ def can_split(
             NodeTypeWithAttrs,
             (types_after and len(types_after) > i and types_after[i]) or node,
         )
-        if not node.can_replace(
-            index + 1,
-            node.child_count,
-        ) or not after.type.valid_content(rest):
+        if (
+            not node.can_replace(
+                index + 1,
+                node.child_count,
+            )
+            or not after.type.valid_content(rest)
+            or not after.type.compatible_content(node.type)
+        ):
             return False
         d -= 1
         i -= 1
